@@ -402,6 +402,9 @@ static Reg r_cfg("cfgprops", [](const Args& a) {
     if (documented_domain(c)) {
       double ol = c11::dbl(atan2q(P.p0.s, P.p0.c) * 180 / c11::PIq);
       if (!P.polar && !(std::fabs(lat0 - ol) <= 4 * 4.5e-14 * gflat(c) + 4 * ulp(lat0) + NULP * cond_lat0(c))) badt("origin-latitude", "OriginLatitude " + num(lat0) + " vs latitude of minimum scale " + num(ol));
+      // the class of the accuracy finding F87 is bounded in size (Albers: its worst documented loss is 1e-6 degrees at f = 0.99): an Albers origin off
+      // by more than 1e-4 degrees is a wrong root of the Newton iteration in Init (the repaired cycle F86), reported under its own relation, without class
+      if (c.cls == 2 && std::fabs(lat0 - ol) > 1e-4 + NULP * cond_lat0(c)) gv::bad("origin-latitude-gross", "OriginLatitude " + num(lat0) + " vs latitude of minimum scale " + num(ol));
       if (std::fabs(lat0) < 90) {
         double x, y, g, k; o.Fwd(true, 7, lat0, 7, x, y, g, k);
         if (!(std::hypot(x, y) <= tol_plane(c, 0, std::fmax(k, 1 / k)))) badt("origin-maps-to-zero", "Forward(lat0) = (" + num(x) + ", " + num(y) + ")");
